@@ -1,7 +1,7 @@
 \* C12 quick tier: all families
 SPECIFICATION Spec
-CONSTANTS AllUnits257 = TRUE  Degs257 = {1, 2}  MaxBlow257 = 8  NRnd = 2
-          BigSizes = {64, 128, 256, 512, 1024, 2048, 4096, 8192}  NSparse = 4  NDense = 4  KIdx = 12  FullUpTo = 512  NGrid = 1
+CONSTANTS AllUnits257 = FALSE  Degs257 = {1, 2}  MaxBlow257 = 8  NRnd = 2
+          BigSizes = {64, 128, 256, 512, 1024, 2048, 4096, 8192}  NSparse = 3  NDense = 3  KIdx = 10  FullUpTo = 256  NGrid = 1
           Fams = {"small97", "small257", "sparse", "dense", "grid", "pidx", "rows"}
 ACTION_CONSTRAINT Emit
 CHECK_DEADLOCK FALSE
